@@ -76,6 +76,166 @@ pub fn dec_value(s: &Sexp) -> Option<LhsValue<'static>> {
     }
 }
 
+// IntoValue is sealed and not exported: the typed wrappers are filled by macros, not by generic functions
+macro_rules! tarr {
+    ($items:expr, $f:expr) => {{
+        let mut a = wirefilter::TypedArray::new();
+        let mut ok = true;
+        for x in $items {
+            match $f(x) {
+                Some(v) => a.push(v),
+                None => {
+                    ok = false;
+                    break;
+                }
+            }
+        }
+        if ok { Some(a) } else { None }
+    }};
+}
+macro_rules! tmap {
+    ($items:expr, $f:expr) => {{
+        let mut m = wirefilter::TypedMap::new();
+        let mut ok = true;
+        for x in $items {
+            let kv = x.as_list().and_then(|l| match l {
+                [k, v] => k.as_bytes().map(|k| (k.to_vec().into_boxed_slice(), v)),
+                _ => None,
+            });
+            match kv.and_then(|(k, v)| $f(v).map(|v| (k, v))) {
+                Some((k, v)) => m.insert(k, v),
+                None => {
+                    ok = false;
+                    break;
+                }
+            }
+        }
+        if ok { Some(m) } else { None }
+    }};
+}
+
+/// The same value through one of the conversions that ought to be interchangeable with building the
+/// `LhsValue` by hand: the typed `IntoValue` impls (bool, the integer widths, Ipv4Addr / Ipv6Addr / IpAddr,
+/// Vec<u8> / Box<[u8]> / String / Box<str> / Cow), and `FromIterator` for arrays of such values.  `route`
+/// picks the conversion; None = this route does not apply to this value (the caller falls back to
+/// `dec_value`).
+pub fn dec_value_via(s: &Sexp, route: u64) -> Option<LhsValue<'static>> {
+    use std::borrow::Cow;
+    let l = s.as_list()?;
+    let h = l.first()?.as_sym()?;
+    match (h, &l[1..]) {
+        ("b", [a]) => Some(LhsValue::from(a.as_bool()?)),
+        ("i", [a]) => {
+            let z = a.as_i64()?;
+            Some(match route % 6 {
+                0 => LhsValue::from(z),
+                1 => LhsValue::from(i32::try_from(z).ok()?),
+                2 => LhsValue::from(i16::try_from(z).ok()?),
+                3 => LhsValue::from(u16::try_from(z).ok()?),
+                4 => LhsValue::from(i8::try_from(z).ok()?),
+                _ => LhsValue::from(u8::try_from(z).ok()?),
+            })
+        }
+        ("v4", [a]) => {
+            let ip = Ipv4Addr::from(u32::try_from(a.as_u128()?).ok()?);
+            Some(if route % 2 == 0 { LhsValue::from(ip) } else { LhsValue::from(IpAddr::V4(ip)) })
+        }
+        ("v6", [a]) => {
+            let ip = Ipv6Addr::from(a.as_u128()?);
+            Some(if route % 2 == 0 { LhsValue::from(ip) } else { LhsValue::from(IpAddr::V6(ip)) })
+        }
+        ("s", [a]) => {
+            let b = a.as_bytes()?.to_vec();
+            Some(match route % 6 {
+                0 => LhsValue::from(b),
+                1 => LhsValue::from(b.into_boxed_slice()),
+                2 => LhsValue::from(String::from_utf8(b).ok()?),
+                3 => LhsValue::from(String::from_utf8(b).ok()?.into_boxed_str()),
+                4 => LhsValue::from(Cow::<'static, [u8]>::Owned(b)),
+                _ => LhsValue::from(Cow::<'static, str>::Owned(String::from_utf8(b).ok()?)),
+            })
+        }
+        ("arr", [t, rest @ ..]) if !rest.is_empty() => match dec_ty(t)? {
+            Type::Int => Some(LhsValue::Array(
+                rest.iter().map(|x| dec_value(x).and_then(|v| match v { LhsValue::Int(z) => Some(z), _ => None }))
+                    .collect::<Option<Vec<i64>>>()?.into_iter().collect::<Array<'static>>(),
+            )),
+            Type::Bool => Some(LhsValue::Array(
+                rest.iter().map(|x| dec_value(x).and_then(|v| match v { LhsValue::Bool(z) => Some(z), _ => None }))
+                    .collect::<Option<Vec<bool>>>()?.into_iter().collect::<Array<'static>>(),
+            )),
+            Type::Bytes => Some(LhsValue::Array(
+                rest.iter().map(|x| x.as_list().and_then(|l| l.get(1)).and_then(|b| b.as_bytes()).map(|b| b.to_vec()))
+                    .collect::<Option<Vec<Vec<u8>>>>()?.into_iter().collect::<Array<'static>>(),
+            )),
+            Type::Ip => Some(LhsValue::Array(
+                rest.iter().map(|x| dec_value(x).and_then(|v| match v { LhsValue::Ip(z) => Some(z), _ => None }))
+                    .collect::<Option<Vec<IpAddr>>>()?.into_iter().collect::<Array<'static>>(),
+            )),
+            // containers of containers through the typed wrappers (TypedArray / TypedMap of a typed element)
+            Type::Array(inner) => typed_nested(true, true, Type::from(inner), rest),
+            Type::Map(inner) => typed_nested(true, false, Type::from(inner), rest),
+        },
+        ("map", [t, rest @ ..]) => match dec_ty(t)? {
+            Type::Array(inner) => typed_nested(false, true, Type::from(inner), rest),
+            Type::Map(inner) => typed_nested(false, false, Type::from(inner), rest),
+            Type::Int => tmap!(rest, prim_int).map(LhsValue::from),
+            Type::Bool => tmap!(rest, prim_bool).map(LhsValue::from),
+            Type::Bytes => tmap!(rest, prim_bytes).map(LhsValue::from),
+            Type::Ip => tmap!(rest, prim_ip).map(LhsValue::from),
+        },
+        _ => None,
+    }
+}
+
+fn prim_int(x: &Sexp) -> Option<i64> {
+    match dec_value(x)? { LhsValue::Int(z) => Some(z), _ => None }
+}
+fn prim_bool(x: &Sexp) -> Option<bool> {
+    match dec_value(x)? { LhsValue::Bool(z) => Some(z), _ => None }
+}
+fn prim_ip(x: &Sexp) -> Option<IpAddr> {
+    match dec_value(x)? { LhsValue::Ip(z) => Some(z), _ => None }
+}
+fn prim_bytes(x: &Sexp) -> Option<Vec<u8>> {
+    match dec_value(x)? { LhsValue::Bytes(b) => Some(b.to_vec()), _ => None }
+}
+
+/// the items of an inner container value `(arr t x...)` / `(map t (k v)...)`
+fn inner_items(x: &Sexp) -> Option<&[Sexp]> {
+    let l = x.as_list()?;
+    l.get(2..)
+}
+
+/// outer container (array or map) of inner containers (array or map) of a primitive type
+fn typed_nested(outer_arr: bool, inner_arr: bool, inner: Type, items: &[Sexp]) -> Option<LhsValue<'static>> {
+    macro_rules! build {
+        ($prim:expr) => {
+            match (outer_arr, inner_arr) {
+                (true, true) => tarr!(items, |x: &Sexp| inner_items(x).and_then(|it| tarr!(it, $prim))).map(LhsValue::from),
+                (true, false) => tarr!(items, |x: &Sexp| inner_items(x).and_then(|it| tmap!(it, $prim))).map(LhsValue::from),
+                (false, true) => tmap!(items, |x: &Sexp| inner_items(x).and_then(|it| tarr!(it, $prim))).map(LhsValue::from),
+                (false, false) => tmap!(items, |x: &Sexp| inner_items(x).and_then(|it| tmap!(it, $prim))).map(LhsValue::from),
+            }
+        };
+    }
+    match inner {
+        Type::Int => build!(prim_int),
+        Type::Bool => build!(prim_bool),
+        Type::Bytes => build!(prim_bytes),
+        Type::Ip => build!(prim_ip),
+        _ => None,
+    }
+}
+
+fn route_of(s: &Sexp, salt: usize) -> u64 {
+    let mut h: u64 = 0xcbf29ce484222325 ^ (salt as u64);
+    for b in s.to_line().bytes() {
+        h = (h ^ b as u64).wrapping_mul(0x100000001b3);
+    }
+    h >> 7
+}
+
 pub fn enc_ip(ip: &IpAddr) -> (&'static str, u128) {
     match ip {
         IpAddr::V4(a) => ("v4", u32::from(*a) as u128),
@@ -550,11 +710,25 @@ pub fn dec_ctx<'s>(info: &'s SchemeInfo, s: &Sexp) -> Option<ExecutionContext<'s
     if vl.len() - 1 != fields.len() {
         return None;
     }
-    for (f, v) in fields.iter().zip(&vl[1..]) {
+    for (k, (f, v)) in fields.iter().zip(&vl[1..]).enumerate() {
         if v.is_sym("none") {
             continue;
         }
-        ctx.set_field_value(*f, dec_value(v)?).ok()?;
+        // two out of three values take one of the alternative entry points: a typed conversion instead of a
+        // hand-built LhsValue, and (every other time) the by-name setter instead of the by-reference one
+        let route = route_of(v, k);
+        let value = match route % 3 {
+            0 => dec_value(v)?,
+            _ => match dec_value_via(v, route / 3) {
+                Some(x) => x,
+                None => dec_value(v)?,
+            },
+        };
+        if (route / 3) % 2 == 1 {
+            ctx.set_field_value_from_name(f.name(), value).ok()?;
+        } else {
+            ctx.set_field_value(*f, value).ok()?;
+        }
     }
     let ll = lists.as_list()?;
     if !ll.first()?.is_sym("lists") {
